@@ -1,5 +1,5 @@
-//! C36 — crash recovery of `RocksStore`: histories of appends / applies / snapshot builds and
-//! installs / purges / conflicting-suffix deletions / votes on a temp RocksDB, a process crash after
+//! C36 — crash recovery of `RocksStore`: histories of appends / applies / snapshot builds (capture and
+//! persist as separate steps) and installs / purges / conflicting-suffix deletions / votes on a temp RocksDB, a process crash after
 //! the n-th RocksDB write (hook `persistent_store::verif`, feature `varpulis_verif`), then
 //! `RocksStore::open_with_shared_state` and a canonical dump. Replayed by `vmodel raftstore`.
 //!
@@ -11,10 +11,10 @@ use crate::p_raftsm::{entries_words, lid, mk_lid, mk_vote, rt, AnyStore, Ent, Ge
 use crate::util::{catch, Ctx};
 use crate::p_raftsm::with_store;
 use openraft::storage::RaftStorage;
-use openraft::{LogId, RaftLogReader, Vote};
+use openraft::{LogId, RaftLogReader, RaftSnapshotBuilder, Vote};
 use std::collections::BTreeMap;
 use std::panic::AssertUnwindSafe;
-use varpulis_cluster::raft::persistent_store::verif;
+use varpulis_cluster::raft::persistent_store::{verif, RocksSnapshotBuilder};
 use varpulis_cluster::raft::NodeId;
 
 pub const NAMES: &[&str] = &["C36"];
@@ -24,7 +24,10 @@ enum Op {
     Vote(Vote<NodeId>),
     Append(Vec<Ent>),
     Apply(u64),
-    Build,
+    /// `get_snapshot_builder`: capture the state machine
+    Begin,
+    /// `build_snapshot` on the captured builder: serialise and persist (openraft does this in a spawned task)
+    Finish,
     /// install the snapshot a coordinator that applied the committed log up to this index would send
     Install(Option<u64>),
     Purge(LogId<NodeId>),
@@ -36,7 +39,8 @@ fn op_line(op: &Op) -> String {
         Op::Vote(v) => format!("op vote {} {} {}", v.leader_id.term, v.leader_id.node_id, if v.committed { 1 } else { 0 }),
         Op::Append(es) => format!("op append {}", entries_words(es)),
         Op::Apply(j) => format!("op apply {}", j),
-        Op::Build => "op build".into(),
+        Op::Begin => "op begin".into(),
+        Op::Finish => "op finish".into(),
         Op::Install(o) => format!("op install {}", o.map(|x| x.to_string()).unwrap_or_else(|| "-".into())),
         Op::Purge(id) => format!("op purge {}", lid(id)),
         Op::Trunc(id) => format!("op trunc {}", lid(id)),
@@ -44,7 +48,7 @@ fn op_line(op: &Op) -> String {
 }
 fn op_kind(op: &Op) -> &'static str {
     match op {
-        Op::Vote(_) => "vote", Op::Append(_) => "append", Op::Apply(_) => "apply", Op::Build => "build",
+        Op::Vote(_) => "vote", Op::Append(_) => "append", Op::Apply(_) => "apply", Op::Begin => "begin", Op::Finish => "finish",
         Op::Install(_) => "install", Op::Purge(_) => "purge", Op::Trunc(_) => "trunc",
     }
 }
@@ -67,6 +71,7 @@ fn gen_history(ctx: &mut Ctx, g: &[Ent], steps: u64) -> Vec<Op> {
     let mut snap: Option<u64> = None; // position of the snapshot stored by build/install
     let mut has_snap = false;
     let mut purged: Option<u64> = None;
+    let mut building: Option<Option<u64>> = None; // a captured builder and the position it captured
     let mut ops = Vec::new();
     let same = |a: &Ent, b: &Ent| entries_words(std::slice::from_ref(a)) == entries_words(std::slice::from_ref(b));
     for _ in 0..steps {
@@ -74,7 +79,7 @@ fn gen_history(ctx: &mut Ctx, g: &[Ent], steps: u64) -> Vec<Op> {
         let next = local.keys().next_back().map(|k| k + 1).unwrap_or(first)
             .max(applied.map_or(first, |a| a + 1))
             .max(purged.map_or(first, |p| p + 1));
-        match ctx.rng.below(12) {
+        match ctx.rng.below(15) {
             0 | 1 | 2 | 3 => {
                 // append committed entries, sometimes an uncommitted (conflicting) tail
                 if next > glast + 2 { continue; }
@@ -113,14 +118,30 @@ fn gen_history(ctx: &mut Ctx, g: &[Ent], steps: u64) -> Vec<Op> {
                     applied = Some(j);
                 }
             }
-            7 => {
-                ops.push(Op::Build);
-                snap = applied;
-                has_snap = true;
+            7 | 11 => {
+                // snapshot build in two steps; other calls may come in between
+                match building.take() {
+                    None => {
+                        ops.push(Op::Begin);
+                        building = Some(applied);
+                        if ctx.rng.chance(1, 2) {
+                            ops.push(Op::Finish);
+                            snap = building.take().unwrap();
+                            has_snap = true;
+                        }
+                    }
+                    Some(pos) => {
+                        ctx.count("history:build_overlapping_other_calls");
+                        ops.push(Op::Finish);
+                        snap = pos;
+                        has_snap = true;
+                    }
+                }
             }
             8 => {
                 // install a snapshot from the leader, usually ahead of the applied position
-                if g.is_empty() { continue; }
+                // (never while an own build is in flight)
+                if g.is_empty() || building.is_some() { continue; }
                 let lo = applied.map_or(first, |a| a);
                 let o = if ctx.rng.chance(1, 8) { first + ctx.rng.below(glast - first + 1) } else { lo + ctx.rng.below(glast.saturating_sub(lo) + 1) };
                 let o = o.min(glast).max(first);
@@ -135,7 +156,7 @@ fn gen_history(ctx: &mut Ctx, g: &[Ent], steps: u64) -> Vec<Op> {
                     purged = Some(purged.map_or(o, |p| p.max(o)));
                 }
             }
-            9 => {
+            9 | 12 | 13 => {
                 // purge up to (at most) the stored snapshot
                 if !has_snap { continue; }
                 let Some(s) = snap else { continue };
@@ -162,7 +183,28 @@ fn gen_history(ctx: &mut Ctx, g: &[Ent], steps: u64) -> Vec<Op> {
 
 /// run `ops` on the store at `path`; stops at the first panic (the armed crash point). Returns Ok(()) or the panic text.
 fn run_ops(rt: &tokio::runtime::Runtime, st: &mut AnyStore, g: &[Ent], ops: &[Op]) -> Result<(), String> {
+    // the captured snapshot builder (holds a handle to the same RocksDB); dropped when this returns
+    let mut builder: Option<RocksSnapshotBuilder> = None;
     for op in ops {
+        match op {
+            Op::Begin => {
+                let AnyStore::Rocks(s, _) = &mut *st else { unreachable!() };
+                builder = Some(rt.block_on(s.get_snapshot_builder()));
+                continue;
+            }
+            Op::Finish => {
+                if let Some(mut b) = builder.take() {
+                    let r = catch(AssertUnwindSafe(|| rt.block_on(b.build_snapshot())));
+                    match r {
+                        Err(p) => return Err(p),
+                        Ok(Err(e)) => panic!("storage error in harness history: {}", e),
+                        Ok(Ok(_)) => {}
+                    }
+                }
+                continue;
+            }
+            _ => {}
+        }
         let reg: Option<SnapReg> = if let Op::Install(o) = op { Some(leader_snapshot(rt, g, *o)) } else { None };
         let r = catch(AssertUnwindSafe(|| {
             rt.block_on(async {
@@ -176,11 +218,7 @@ fn run_ops(rt: &tokio::runtime::Runtime, st: &mut AnyStore, g: &[Ent], ops: &[Op
                             let es = s.try_get_log_entries(from..=*j).await.map_err(|e| e.to_string())?;
                             s.apply_to_state_machine(&es).await.map(|_| ()).map_err(|e| e.to_string())
                         }
-                        Op::Build => {
-                            use openraft::RaftSnapshotBuilder;
-                            let mut b = s.get_snapshot_builder().await;
-                            b.build_snapshot().await.map(|_| ()).map_err(|e| e.to_string())
-                        }
+                        Op::Begin | Op::Finish => unreachable!(),
                         Op::Install(_) => {
                             let reg = reg.as_ref().unwrap();
                             let mut b = s.begin_receiving_snapshot().await.map_err(|e| e.to_string())?;
@@ -273,7 +311,7 @@ pub fn run(ctx: &mut Ctx, _name: &str) {
     let n = if ctx.thorough { 160 } else { 12 };
     for i in 0..n {
         let len = 2 + ctx.rng.below(if ctx.thorough { 14 } else { 8 });
-        let steps = 4 + ctx.rng.below(if ctx.thorough { 22 } else { 12 });
+        let steps = 6 + ctx.rng.below(if ctx.thorough { 22 } else { 12 });
         let all = ctx.thorough || i % 4 == 0;
         scenario(ctx, &mut scratch, len, steps, all);
     }
